@@ -3,6 +3,7 @@
 From Coq Require Import ZArith NArith List Bool FMapPositive.
 Import ListNotations.
 Require Import Base Float.
+Require Utf Utf16.          (* RFC 3629 / UTF-16 / UTF-32, proved and compared with the implementation on their own (C16); used by the string codecs *)
 From Coq Require Import SpecFloat.
 Open Scope Z_scope.
 
@@ -103,10 +104,20 @@ Definition num_eq (a b:value) : bool := nkey_eqb (fst (ckey a)) (fst (ckey b)) &
 Definition fun_eq (f g:funv) : bool :=
   match f, g with
   | FClo p, FClo q => Pos.eqb p q
+  | FFile p, FFile q => Pos.eqb p q
   | FPipe p _, FPipe q _ | FCollect p _, FCollect q _ | FSpread p _, FSpread q _ | FCodec p _ _ _, FCodec q _ _ _ => Pos.eqb p q
   | FModule a, FModule b => if list_eq_dec Z.eq_dec a b then true else false
   | _, _ => false end.
 Definition codes_eq (x y:list N) : bool := if list_eq_dec N.eq_dec x y then true else false.
+Definition Files_mode_eq (a b:Files.mode) : {a = b} + {a <> b}. Proof. decide equality. Defined.
+Definition op_eqb (a b:Files.op) : bool :=
+  match a, b with
+  | Files.ORead x, Files.ORead y | Files.OSeekSet x, Files.OSeekSet y | Files.OSeekCur x, Files.OSeekCur y | Files.OTruncN x, Files.OTruncN y => Z.eqb x y
+  | Files.OWrite x, Files.OWrite y => codes_eq x y
+  | Files.OTell, Files.OTell | Files.OTrunc, Files.OTrunc => true
+  | _, _ => false end.
+Definition xop_eqb (a b:FilesTotal.xop) : bool :=
+  match a, b with FilesTotal.XOp x, FilesTotal.XOp y => op_eqb x y | FilesTotal.XClose, FilesTotal.XClose => true | _, _ => false end.
 Fixpoint veqb (a b:value) {struct a} : bool :=
   match a, b with
   | VInt _, _ | VFloat _, _ | VComplex _ _, _ => num_eq a b
@@ -124,6 +135,8 @@ Fixpoint veqb (a b:value) {struct a} : bool :=
       | IOPrint s, IOPrint s' => codes_eq s s'
       | IOReturn v, IOReturn w => veqb v w
       | IOBind _ _ _ _ l1, IOBind _ _ _ _ l2 => list_eq (fun p q => veqb p q) l1 l2
+      | IOOpen _ p m, IOOpen _ p' m' => codes_eq p p' && (if Files_mode_eq m m' then true else false)
+      | IOFile _ h o, IOFile _ h' o' => Pos.eqb h h' && xop_eqb o o'
       | _, _ => false end
   | _, _ => false
   end.
@@ -140,9 +153,9 @@ Definition b_throw := -58. Definition b_try := -22. Definition b_pipe := -1. Def
 Definition b_input := 3. Definition b_print := -31. Definition b_return := -48. Definition b_bind := -24.
 Definition b_eq := 1. Definition b_not := 4. Definition b_lt := 7. Definition b_true := -63. Definition b_false := -56.
 Definition b_len := -23. Definition b_slice := -61. Definition b_map := -20. Definition b_filter := -46. Definition b_fold := -30.
-Definition b_complexc := -53. Definition b_floatc := -54. Definition b_int := -55. Definition b_split := -29. Definition b_join := -32. Definition b_import := 5.
+Definition b_open := -8. Definition b_complexc := -53. Definition b_floatc := -54. Definition b_int := -55. Definition b_split := -29. Definition b_join := -32. Definition b_import := 5.
 Definition c_unmodelled := 999.   (* outside the model: the harness skips the case *)
-Definition builtin_names : list Z := [b_complexc;b_floatc;b_int;b_split;b_join;b_import;b_mul;b_add;b_pow;b_div;b_mod;b_exc;b_list;b_str;b_nil;b_dict;b_throw;b_try;b_pipe;b_collect;b_spread;
+Definition builtin_names : list Z := [b_open;b_complexc;b_floatc;b_int;b_split;b_join;b_import;b_mul;b_add;b_pow;b_div;b_mod;b_exc;b_list;b_str;b_nil;b_dict;b_throw;b_try;b_pipe;b_collect;b_spread;
   b_input;b_print;b_return;b_bind;b_eq;b_not;b_lt;b_true;b_false;b_len;b_slice;b_map;b_filter;b_fold].
 
 (* proc_functional *)
@@ -349,6 +362,58 @@ Definition bi_bind (sp:span) (argv:list value) : Comp value :=
       | h :: _ => reject <- late_functional sp h ;; Ret (VIO (IOBind sp io resolve (Some reject) argv)) end
   | _ => raise c_value sp end.
 
+
+(* ㄱㄴ: the action that opens a file.  Everything is checked when the action is BUILT (kinds, the mode word); opening happens when it runs.
+   Descriptors (integers) are outside the model. *)
+Definition mode_of (n:Z) : option Files.mode :=
+  if n =? 3 then Some Files.MR else if n =? -31 then Some Files.MW else if n =? -7 then Some Files.MA
+  else if n =? 251 then Some Files.MRW else if n =? 223 then Some Files.MWR else if n =? 199 then Some Files.MAR else None.
+Definition bi_open (sp:span) (argv:list value) : Comp value :=
+  check_arity sp (length argv) [2%nat] ;;; vs <- map_strict argv ;;
+  match vs with
+  | [t; m] => check_type sp [t] (orp is_int is_str) ;;; check_type sp [m] is_int ;;;
+      match m with
+      | VInt mn => match mode_of mn with
+                   | None => raise c_value sp
+                   | Some md => match t with VStr p => Ret (VIO (IOOpen sp p md)) | _ => raise c_unmodelled sp end end
+      | _ => raise c_type sp end
+  | _ => raise c_value sp end.
+(* calling a file handle: the LAST argument is the command word; each command checks its own arguments and builds the action *)
+Definition file_call (hd:positive) (sp:span) (argv:list value) : Comp value :=
+  check_min_arity sp (length argv) 1 ;;;
+  cmd <- force (last argv VNil) ;; check_type sp [cmd] is_int ;;;
+  match cmd with
+  | VInt c =>
+      if c =? 2 then check_arity sp (length argv) [1%nat] ;;; Ret (VIO (IOFile sp hd FilesTotal.XClose))
+      else if c =? 3 then check_arity sp (length argv) [2%nat] ;;;
+        vs <- match_arguments_any sp (firstn 1 argv) is_int ;; match vs with [VInt n] => Ret (VIO (IOFile sp hd (FilesTotal.XOp (Files.ORead n)))) | _ => raise c_type sp end
+      else if c =? -31 then check_arity sp (length argv) [2%nat] ;;;
+        vs <- match_arguments_any sp (firstn 1 argv) is_bytes ;; match vs with [VBytes b] => Ret (VIO (IOFile sp hd (FilesTotal.XOp (Files.OWrite b)))) | _ => raise c_type sp end
+      else if c =? 7 then check_max_arity sp (length argv) 3 ;;;
+        match argv with
+        | [_] => Ret (VIO (IOFile sp hd (FilesTotal.XOp Files.OTell)))
+        | _ => vs <- map_strict argv ;;
+            match rev vs with
+            | _ :: off :: rest =>
+                check_type sp [off] is_int ;;;
+                match off, rest with
+                | VInt o, [] => Ret (VIO (IOFile sp hd (FilesTotal.XOp (Files.OSeekSet o))))
+                | VInt o, wh :: _ => check_type sp [wh] is_int ;;;
+                    match wh with
+                    | VInt k => if k =? -1406 then Ret (VIO (IOFile sp hd (FilesTotal.XOp (Files.OSeekSet o))))
+                                else if k =? -1351 then Ret (VIO (IOFile sp hd (FilesTotal.XOp (Files.OSeekCur o)))) else raise c_value sp
+                    | _ => raise c_type sp end
+                | _, _ => raise c_type sp end
+            | _ => raise c_value sp end
+        end
+      else if c =? 0 then
+        check_max_arity sp (length argv) 2 ;;; vs <- map_strict argv ;; check_type sp vs is_int ;;;
+        match vs with
+        | [_] => Ret (VIO (IOFile sp hd (FilesTotal.XOp Files.OTrunc)))
+        | [VInt n; _] => Ret (VIO (IOFile sp hd (FilesTotal.XOp (Files.OTruncN n))))
+        | _ => raise c_value sp end
+      else raise c_value sp
+  | _ => raise c_type sp end.
 
 (* ---------- more arithmetics: power ---------- *)
 Fixpoint egcd (fuel:nat) (a b:Z) : Z * Z * Z :=          (* g, x, y with a*x + b*y = g *)
@@ -568,6 +633,25 @@ Definition codec_body (scheme width:Z) (big:option bool) (sp:span) (argv:list va
             let w := Z.of_nat (length bs) in
             Ret (VInt (if signed && negb (w =? 0) && (256 ^ w / 2 <=? v) then v - 256 ^ w else v))
         | _ => raise c_type sp end
+      else if scheme =? 0 then
+        (* strings <-> byte strings: UTF-8 (width 1, no byte order), UTF-16 / UTF-32 (width 2 / 4; without a byte order: a byte-order mark and little-endian
+           when encoding, the mark honoured when decoding); any other width or a byte order for UTF-8 names no codec: value error *)
+        check_type sp [a] (orp is_str is_bytes) ;;;
+        let enc (cs:list Z) : option (list Z) :=
+          if width =? 1 then match big with None => Some (Utf.utf8_encode cs) | Some _ => None end
+          else if width =? 2 then Some (match big with None => Utf16.utf16_encode_bom cs | Some b => Utf16.utf16_encode b cs end)
+          else if width =? 4 then Some (match big with None => Utf16.utf32_encode_bom cs | Some b => Utf16.utf32_encode b cs end)
+          else None in
+        let dec (bs:list Z) : option (list Z) :=
+          if width =? 1 then match big with None => Utf.utf8_decode bs | Some _ => None end
+          else if width =? 2 then match big with None => Utf16.utf16_decode_bom bs | Some b => Utf16.utf16_decode b bs end
+          else if width =? 4 then match big with None => Utf16.utf32_decode_bom bs | Some b => Utf16.utf32_decode b bs end
+          else None in
+        match a with
+        | VStr s0 => let cs := map Z.of_N s0 in
+            if forallb Utf16.scalarb cs then match enc cs with Some bs => Ret (VBytes (map Z.to_N bs)) | None => raise c_value sp end else raise c_value sp
+        | VBytes b0 => match dec (map Z.of_N b0) with Some cs => Ret (VStr (map Z.to_N cs)) | None => raise c_value sp end
+        | _ => raise c_type sp end
       else if scheme =? 3 then raise c_value sp else raise c_unmodelled sp
   | _ => raise c_value sp end.
 
@@ -581,5 +665,5 @@ Definition builtin (n:Z) : span -> list value -> Comp value :=
   else if n =? b_fold then bi_fold else if n =? b_pipe then bi_pipe else if n =? b_collect then bi_collect else if n =? b_spread then bi_spread
   else if n =? b_input then bi_input else if n =? b_print then bi_print else if n =? b_return then bi_return else if n =? b_bind then bi_bind
   else if n =? b_pow then bi_pow else if n =? b_int then bi_integer else if n =? b_split then bi_split else if n =? b_join then bi_join
-  else if n =? b_import then bi_import else if n =? b_floatc then bi_float else if n =? b_complexc then bi_complex
+  else if n =? b_import then bi_import else if n =? b_floatc then bi_float else if n =? b_complexc then bi_complex else if n =? b_open then bi_open
   else fun sp _ => raise c_notfound sp.
